@@ -16,6 +16,7 @@ Strings are hex of their UTF-8 bytes (`-` = empty string). Lists use `,` / `;`, 
   pconv <metric>                                 ConvertTo through that converter (its state is carried along)
   fnew <fresh|pooled>                            a flat decoder: brand-new, or the one the last request released
   famscan <ts:fam:start:end>…                    the family iterator over one shard group, calculator given as a table
+  its <precision> <literal>                      parseTimestamp: the literal in milliseconds
   inew                                           influx.Parse takes a RowBuilder (the pooled one: what the last request left)
   iline <ok|badts|strfields|badtags|comment> <metric>   one line of the request through the shared RowBuilder
   fdec <metric>                                  BrokerRowFlatDecoder.DecodeTo of the raw flat row (no nil entries)
@@ -414,6 +415,14 @@ def step (st : St) (ws : List String) : St × String :=
       let brs : List BRow := (List.range tbl.length).zip tbl |>.map (fun (i, r) => ⟨i, simpleRow r.1, 0, false⟩)
       let gs := familyGroupsCode C (insertionSort lessTs) brs
       (st, "groups " ++ showList " " (gs.map (fun g => s!"{g.1}:{showIds g.2}")))
+    | none => (st, "bad-op")
+  | ["its", p, lit] =>
+    -- the timestamp literal of a line under the request's (lower-cased) precision
+    match lit.toInt? with
+    | some f =>
+      match InfluxStream.toMillis (InfluxStream.multiplierOf Generated.C16.influxPrecisionTable p) f with
+      | some ms => (st, toString ms)
+      | none => (st, "guessed")
     | none => (st, "bad-op")
   | ["inew"] => (st, "ok")
   | "iline" :: kind :: rest =>
